@@ -56,6 +56,13 @@ fn to_line_col(pos: &lsp_types::Position) -> LineCol {
     }
 }
 
+/// The file a document URI stands for. A document that is not a file (e.g. `untitled:Untitled-1`, a buffer the editor
+/// has not saved yet) gets a path nothing else has: it is simply not part of the project.
+fn to_path(uri: &Url) -> PathBuf {
+    uri.to_file_path()
+        .unwrap_or_else(|_| PathBuf::from(uri.as_str()))
+}
+
 fn to_range(s: SpanLoc) -> lsp_types::Range {
     lsp_types::Range {
         start: lsp_types::Position {
@@ -338,7 +345,7 @@ impl LspContext {
         pos: &'a TextDocumentPositionParams,
     ) -> Vec<(&'a DefinitionType, &'a Definition)> {
         analysis.find(
-            pos.text_document.uri.to_file_path().unwrap(),
+            to_path(&pos.text_document.uri),
             to_line_col(&pos.position),
         )
     }
